@@ -11,12 +11,14 @@ import (
 	"encoding/json"
 	"fmt"
 	"os"
+	"runtime"
 	"strconv"
 	"strings"
 	"testing"
 	"testing/synctest"
 
 	"github.com/cenkalti/rain/v2/internal/zzsim/refbt"
+	"github.com/cenkalti/rain/v2/internal/zzsim/simnet"
 	"github.com/cenkalti/rain/v2/internal/zzsim/simrt"
 	"github.com/cenkalti/rain/v2/internal/zzsim/worlds"
 	"github.com/cenkalti/rain/v2/torrent"
@@ -81,11 +83,17 @@ func TestSim(t *testing.T) {
 	simrt.Verbose = os.Getenv("SIM_VERBOSE") != ""
 	simrt.DebugDraws = os.Getenv("SIM_DEBUGDRAWS") != ""
 	refbt.WireLog = os.Getenv("SIM_WIRELOG") != ""
+	simnet.Debug = os.Getenv("SIM_NETDEBUG") != ""
 	if os.Getenv("SIM_RAINLOG") == "" {
 		torrent.DisableLogging()
 	}
 	var env *worlds.Env
 	finish := func() {
+		if os.Getenv("SIM_DUMPSTACKS") != "" && len(simrt.Violations()) > 0 {
+			buf := make([]byte, 8<<20)
+			n := runtime.Stack(buf, true)
+			os.Stderr.Write(buf[:n])
+		}
 		res := worlds.Result{
 			Scenario: plan.Scenario, Seed: plan.Seed, PlanHash: plan.Hash(), TraceHash: simrt.TraceHash(),
 			SimTime: simrt.Now().Seconds(), Events: simrt.Seq(), SchedDraws: simrt.SchedDraws(),
